@@ -76,6 +76,95 @@ fn put_fb(obj: &mut Map<String, Value>, pt: &PrimeTable, fb: u32) {
     obj.insert("pi24".into(), du(pt.ps.iter().take_while(|&&p| p < 1 << 24).count() as u64));
 }
 
+/// every derived parameter of one sieve variant for one n, as computed by the real functions (shared by the
+/// exhaustive dump and by the consumer runs of the second leg, so that both log the same fields)
+fn fill_params(o: &mut Map<String, Value>, alg: &str, n: &Uint, bits: u32, dbl: bool, pt: &PrimeTable) {
+    let n = *n;
+    let mut o = o;
+    match alg {
+        "siqs" => {
+            if let Some(fb) = call(&mut o, "siqs::fb_size", || siqs::vhook::fb_size(&n, dbl)) {
+                put_fb(&mut o, pt, fb);
+            }
+            // also the public formula it is built on
+            if let Some(v) = call(&mut o, "params::factor_base_size", || params::factor_base_size(&n)) {
+                o.insert("fbs".into(), du(v as u64));
+            }
+            if let Some(v) = call(&mut o, "siqs::nfactors", || siqs::vhook::nfactors(&n)) {
+                o.insert("nfacs".into(), du(v as u64));
+            }
+            if let Some(v) = call(&mut o, "siqs::a_value_count", || siqs::vhook::a_value_count(&n)) {
+                o.insert("acount".into(), du(v as u64));
+            }
+            if let Some(v) = call(&mut o, "siqs::a_tolerance_divisor", || siqs::vhook::a_tolerance_divisor(&n)) {
+                o.insert("adiv".into(), du(v as u64));
+            }
+            if let Some(v) = call(&mut o, "siqs::interval_size", || siqs::vhook::interval_size(&n, dbl)) {
+                o.insert("interval".into(), du(v as u64));
+            }
+            if let Some(v) = call(&mut o, "siqs::large_prime_factor", || siqs::vhook::large_prime_factor(&n)) {
+                o.insert("lpf".into(), du(v));
+            }
+            if let Some(v) = call(&mut o, "siqs::double_large_factor", || siqs::vhook::double_large_factor(&n)) {
+                o.insert("dlf".into(), du(v));
+            }
+        }
+        "mpqs" => {
+            if let Some(fb) = call(&mut o, "params::mpqs_fb_size", || params::mpqs_fb_size(bits, dbl)) {
+                put_fb(&mut o, pt, fb);
+            }
+            if let Some(v) = call(&mut o, "mpqs::mpqs_interval_size", || mpqs::vhook::mpqs_interval_size(&n)) {
+                // i64 in the code, used as u32
+                o.insert("interval_neg".into(), json!(v < 0));
+                o.insert("interval".into(), du(v.unsigned_abs()));
+            }
+            if let Some(v) = call(&mut o, "mpqs::large_prime_factor", || mpqs::vhook::large_prime_factor(&n)) {
+                o.insert("lpf".into(), du(v));
+            }
+            if let Some(v) = call(&mut o, "mpqs::double_large_factor", || mpqs::vhook::double_large_factor(&n)) {
+                o.insert("dlf".into(), du(v));
+            }
+        }
+        "qs" => {
+            if let Some(fb) = call(&mut o, "params::qs_fb_size", || params::qs_fb_size(bits, dbl)) {
+                put_fb(&mut o, pt, fb);
+            }
+            if let Some(v) = call(&mut o, "qsieve::large_prime_factor", || qsieve::large_prime_factor(&n)) {
+                o.insert("lpf".into(), du(v));
+            }
+            // nblocks is a method of the sieve context: build one over a tiny factor base
+            if let Some(v) = call(&mut o, "qsieve::SieveQS::nblocks", || {
+                let fb = FBase::new(Int::cast_from(n), 8);
+                let qs = qsieve::SieveQS::new(n, &fb, 0, dbl);
+                qsieve::vhook::nblocks(&qs)
+            }) {
+                o.insert("nblocks".into(), du(v as u64));
+            }
+        }
+        "cls" => {
+            // the class group code derives everything from the (adjusted) bit size
+            if let Some(fb) = call(&mut o, "params::clsgrp_fb_size", || params::clsgrp_fb_size(bits, dbl)) {
+                put_fb(&mut o, pt, fb);
+            }
+            if let Some((ac, nf)) = call(&mut o, "classgroup::a_params", || classgroup::vhook_params::a_params(bits)) {
+                o.insert("acount".into(), du(ac as u64));
+                o.insert("nfacs".into(), du(nf as u64));
+            }
+            if let Some(v) = call(&mut o, "classgroup::interval_size", || classgroup::vhook_params::interval_size(bits)) {
+                o.insert("interval".into(), du(v as u64));
+            }
+            if let Some(v) = call(&mut o, "classgroup::large_prime_factor", || classgroup::vhook_params::large_prime_factor(bits)) {
+                o.insert("lpf".into(), du(v));
+            }
+            let d = -Int::cast_from(n);
+            if let Some(v) = call(&mut o, "classgroup::double_large_factor", || classgroup::vhook_params::double_large_factor(&d)) {
+                o.insert("dlf".into(), du(v));
+            }
+        }
+        _ => unreachable!(),
+    }
+}
+
 fn sieve_params(out: &mut Out, profile: &str, pt: &PrimeTable) {
     for bits in 1..=MAX_BITS {
         for shape in ["lo1", "hi"] {
@@ -95,88 +184,7 @@ fn sieve_params(out: &mut Out, profile: &str, pt: &PrimeTable) {
                     o.insert("dbl".into(), json!(dbl));
                     o.insert("profile".into(), json!(profile));
                     o.insert("n".into(), dn(&n));
-                    match alg {
-                        "siqs" => {
-                            if let Some(fb) = call(&mut o, "siqs::fb_size", || siqs::vhook::fb_size(&n, dbl)) {
-                                put_fb(&mut o, pt, fb);
-                            }
-                            // also the public formula it is built on
-                            if let Some(v) = call(&mut o, "params::factor_base_size", || params::factor_base_size(&n)) {
-                                o.insert("fbs".into(), du(v as u64));
-                            }
-                            if let Some(v) = call(&mut o, "siqs::nfactors", || siqs::vhook::nfactors(&n)) {
-                                o.insert("nfacs".into(), du(v as u64));
-                            }
-                            if let Some(v) = call(&mut o, "siqs::a_value_count", || siqs::vhook::a_value_count(&n)) {
-                                o.insert("acount".into(), du(v as u64));
-                            }
-                            if let Some(v) = call(&mut o, "siqs::a_tolerance_divisor", || siqs::vhook::a_tolerance_divisor(&n)) {
-                                o.insert("adiv".into(), du(v as u64));
-                            }
-                            if let Some(v) = call(&mut o, "siqs::interval_size", || siqs::vhook::interval_size(&n, dbl)) {
-                                o.insert("interval".into(), du(v as u64));
-                            }
-                            if let Some(v) = call(&mut o, "siqs::large_prime_factor", || siqs::vhook::large_prime_factor(&n)) {
-                                o.insert("lpf".into(), du(v));
-                            }
-                            if let Some(v) = call(&mut o, "siqs::double_large_factor", || siqs::vhook::double_large_factor(&n)) {
-                                o.insert("dlf".into(), du(v));
-                            }
-                        }
-                        "mpqs" => {
-                            if let Some(fb) = call(&mut o, "params::mpqs_fb_size", || params::mpqs_fb_size(bits, dbl)) {
-                                put_fb(&mut o, pt, fb);
-                            }
-                            if let Some(v) = call(&mut o, "mpqs::mpqs_interval_size", || mpqs::vhook::mpqs_interval_size(&n)) {
-                                // i64 in the code, used as u32
-                                o.insert("interval_neg".into(), json!(v < 0));
-                                o.insert("interval".into(), du(v.unsigned_abs()));
-                            }
-                            if let Some(v) = call(&mut o, "mpqs::large_prime_factor", || mpqs::vhook::large_prime_factor(&n)) {
-                                o.insert("lpf".into(), du(v));
-                            }
-                            if let Some(v) = call(&mut o, "mpqs::double_large_factor", || mpqs::vhook::double_large_factor(&n)) {
-                                o.insert("dlf".into(), du(v));
-                            }
-                        }
-                        "qs" => {
-                            if let Some(fb) = call(&mut o, "params::qs_fb_size", || params::qs_fb_size(bits, dbl)) {
-                                put_fb(&mut o, pt, fb);
-                            }
-                            if let Some(v) = call(&mut o, "qsieve::large_prime_factor", || qsieve::large_prime_factor(&n)) {
-                                o.insert("lpf".into(), du(v));
-                            }
-                            // nblocks is a method of the sieve context: build one over a tiny factor base
-                            if let Some(v) = call(&mut o, "qsieve::SieveQS::nblocks", || {
-                                let fb = FBase::new(Int::cast_from(n), 8);
-                                let qs = qsieve::SieveQS::new(n, &fb, 0, dbl);
-                                qsieve::vhook::nblocks(&qs)
-                            }) {
-                                o.insert("nblocks".into(), du(v as u64));
-                            }
-                        }
-                        "cls" => {
-                            // the class group code derives everything from the (adjusted) bit size
-                            if let Some(fb) = call(&mut o, "params::clsgrp_fb_size", || params::clsgrp_fb_size(bits, dbl)) {
-                                put_fb(&mut o, pt, fb);
-                            }
-                            if let Some((ac, nf)) = call(&mut o, "classgroup::a_params", || classgroup::vhook_params::a_params(bits)) {
-                                o.insert("acount".into(), du(ac as u64));
-                                o.insert("nfacs".into(), du(nf as u64));
-                            }
-                            if let Some(v) = call(&mut o, "classgroup::interval_size", || classgroup::vhook_params::interval_size(bits)) {
-                                o.insert("interval".into(), du(v as u64));
-                            }
-                            if let Some(v) = call(&mut o, "classgroup::large_prime_factor", || classgroup::vhook_params::large_prime_factor(bits)) {
-                                o.insert("lpf".into(), du(v));
-                            }
-                            let d = -Int::cast_from(n);
-                            if let Some(v) = call(&mut o, "classgroup::double_large_factor", || classgroup::vhook_params::double_large_factor(&d)) {
-                                o.insert("dlf".into(), du(v));
-                            }
-                        }
-                        _ => unreachable!(),
-                    }
+                    fill_params(&mut o, alg, &n, bits, dbl, pt);
                     out.ev(Value::Object(o));
                 }
             }
@@ -312,6 +320,9 @@ fn conv_dispatch(out: &mut Out, profile: &str) {
 }
 
 pub fn run(args: &Args) -> i32 {
+    if arg_str(args, "mode", "dump") == "flow" {
+        return flow_run(args);
+    }
     let profile = arg_str(args, "profile", "release").to_string();
     let mut out = Out::create(arg_str(args, "out", "trace.ndjson"));
     // the library's own prime enumeration, once
@@ -319,6 +330,492 @@ pub fn run(args: &Args) -> i32 {
     sieve_params(&mut out, &profile, &pt);
     stage2(&mut out, &profile);
     conv_dispatch(&mut out, &profile);
+    let n = out.finish();
+    println!("{}", json!({"events": n}));
+    0
+}
+
+// ==========================================================================================
+// Second leg: the parameters flow into their REAL consumers.
+//
+// Input: the SHAPE lines printed by spec/params/ParamFlow.tla (one per consumer x breakpoint x side, derived
+// by TLC from the dump above).  For every shape the real consumer is constructed and runs its first unit of
+// work (or a whole / abort-bounded run where that is feasible) on a constructed n of exactly that size.
+// One event per run: the parameters as the real functions report them for that n, what the hooks inside the
+// consumer reported, and how the run ended.  Nothing is judged here (spec/params/ParamFlowTrace.tla does).
+// ==========================================================================================
+use rand::rngs::StdRng;
+use rand::Rng;
+use yamaquasi::{ecm, ecm128, pp1, Preferences, Verbosity};
+
+use crate::gen::{is_prime_u64, rand_bits, rng_for};
+
+fn rand_prime_u64(rng: &mut StdRng, bits: u32) -> u64 {
+    loop {
+        let c = rand_bits(rng, bits).digits()[0] | 1;
+        if is_prime_u64(c) {
+            return c;
+        }
+    }
+}
+
+/// n of exactly `bits` bits (>= 16), n = mod8 (mod 8), product of distinct primes of at most 60 bits, one of
+/// them of 24..40 bits from 64 bits on (no factor can be in a factor base from 48 bits per piece on)
+fn make_n(rng: &mut StdRng, bits: u32, mod8: u64) -> (Uint, Vec<u64>) {
+    assert!(bits >= 16);
+    let mut sizes: Vec<u32> = vec![];
+    if bits < 72 {
+        sizes.push(bits / 2);
+        sizes.push(bits - bits / 2);
+    } else {
+        sizes.push(32);
+        let rest = bits - 32;
+        let k = (rest + 59) / 60;
+        for i in 0..k {
+            sizes.push(rest / k + if i < rest % k { 1 } else { 0 });
+        }
+    }
+    let np = sizes.len() as u32;
+    // a product of np numbers of s_i bits has sum(s_i) - np + 1 + floor(sum of fractional logs) bits
+    let extra = np - 1 - (0.557 * np as f64).floor() as u32;
+    for i in 0..extra as usize {
+        let j = 1 + i % (sizes.len() - 1);
+        sizes[j] += 1;
+    }
+    loop {
+        let ps: Vec<u64> = sizes.iter().map(|&s| rand_prime_u64(rng, s)).collect();
+        let mut d = ps.clone();
+        d.sort();
+        d.dedup();
+        if d.len() != ps.len() {
+            continue;
+        }
+        let n = ps.iter().fold(Uint::ONE, |a, &p| a * Uint::from(p));
+        if n.bits() == bits && n.digits()[0] % 8 == mod8 {
+            return (n, ps);
+        }
+    }
+}
+
+fn abort_prefs(k: u64, dbl: bool) -> Preferences {
+    let mut p = Preferences::default();
+    p.verbosity = Verbosity::Silent;
+    p.use_double = Some(dbl);
+    if k > 0 {
+        let polls = std::sync::atomic::AtomicU64::new(0);
+        p.should_abort = Some(Box::new(move || polls.fetch_add(1, std::sync::atomic::Ordering::SeqCst) + 1 >= k));
+    }
+    p
+}
+
+fn merge_err(o: &mut Map<String, Value>, e: &Value) {
+    if let Some(m) = e.as_object() {
+        for (k, v) in m {
+            o.insert(k.clone(), v.clone());
+        }
+    }
+}
+
+/// what the hooks inside the consumer reported during one run
+fn hook_summary(o: &mut Map<String, Value>, evs: &[String]) {
+    let (mut stage, mut run_fb, mut tasks, mut polys, mut units, mut aborted) = (false, 0u64, 0u64, 0u64, 0u64, false);
+    for s in evs {
+        let v: Value = match serde_json::from_str(s) {
+            Ok(v) => v,
+            Err(_) => continue,
+        };
+        match v["op"].as_str().unwrap_or("") {
+            "stage" => {
+                stage = true;
+                run_fb = v["fb"].as_u64().unwrap_or(0);
+                tasks = v["tasks"].as_u64().unwrap_or(0);
+            }
+            "poly" => polys += 1,
+            "unit_end" => units += 1,
+            "sieve_ret" => aborted = aborted || v["why"] == "abort",
+            _ => {}
+        }
+    }
+    o.insert("stage_seen".into(), json!(stage));
+    o.insert("run_fb".into(), json!(run_fb.min(1 << 30)));
+    o.insert("tasks".into(), json!(tasks.min(1 << 30)));
+    o.insert("polys".into(), json!(polys.min(1 << 30)));
+    o.insert("units_done".into(), json!(units.min(1 << 30)));
+    o.insert("aborted".into(), json!(aborted));
+}
+
+/// the whole consumer (siqs / mpqs / qsieve) on n with multiplier 1, bounded by an abort predicate
+fn real_sieve_run(o: &mut Map<String, Value>, alg: &'static str, n: Uint, dbl: bool, abort: u64) {
+    o.insert("abort".into(), json!(abort));
+    yamaquasi::verif::start();
+    let r = guard_deadline(900.0, move || {
+        let prefs = abort_prefs(abort, dbl);
+        match alg {
+            "siqs" => match siqs::siqs(&n, 1, &prefs, None) {
+                Ok(v) => (v.len(), "returned"),
+                Err(_) => (0, "unexpected_factor"),
+            },
+            "mpqs" => (mpqs::mpqs(n, 1, &prefs, None).len(), "returned"),
+            "qs" => (qsieve::qsieve(n, 1, &prefs, None).len(), "returned"),
+            _ => unreachable!(),
+        }
+    });
+    let evs = yamaquasi::verif::stop();
+    hook_summary(o, &evs);
+    match r {
+        Ok((found, how)) => {
+            o.insert("ended".into(), json!(how));
+            o.insert("found".into(), json!(found.min(1 << 20)));
+        }
+        Err(e) => merge_err(o, &e),
+    }
+}
+
+/// SIQS / class group: constructor chain and first polynomial, composed from the public pieces the consumer
+/// itself is made of, with the parameters of the real parameter functions.  `neg` = the class group variant
+/// (negative discriminant d = -n, parameters from the adjusted size `psz`).
+fn first_unit(o: &mut Map<String, Value>, n: Uint, dbl: bool, cls: Option<u32>) {
+    let step = std::sync::Arc::new(std::sync::Mutex::new("start"));
+    let st2 = step.clone();
+    let r = guard_deadline(900.0, move || {
+        let set = |s: &'static str| *st2.lock().unwrap() = s;
+        let prefs = abort_prefs(0, dbl);
+        let nint: Int = if cls.is_some() { -Int::cast_from(n) } else { Int::cast_from(n) };
+        set("params");
+        let (fb, mm, nfacs, acount, lpf, dlf) = match cls {
+            None => (
+                siqs::vhook::fb_size(&n, dbl),
+                siqs::vhook::interval_size(&n, dbl),
+                siqs::vhook::nfactors(&n) as usize,
+                siqs::vhook::a_value_count(&n),
+                siqs::vhook::large_prime_factor(&n),
+                siqs::vhook::double_large_factor(&n),
+            ),
+            Some(sz) => {
+                let (ac, nf) = classgroup::vhook_params::a_params(sz);
+                (
+                    params::clsgrp_fb_size(sz, dbl),
+                    classgroup::vhook_params::interval_size(sz),
+                    nf as usize,
+                    ac as usize,
+                    classgroup::vhook_params::large_prime_factor(sz),
+                    classgroup::vhook_params::double_large_factor(&nint),
+                )
+            }
+        };
+        set("fbase");
+        let fbase = FBase::new(nint, fb);
+        let fb_len = fbase.len();
+        set("select_siqs_factors");
+        let factors = siqs::select_siqs_factors(&fbase, &nint, nfacs, mm as usize, Verbosity::Silent);
+        set("select_a");
+        let a_ints = siqs::select_a(&factors, acount, Verbosity::Silent);
+        let got = a_ints.len();
+        if cls.is_none() {
+            // what siqs() evaluates next
+            set("polys_per_a");
+            let _polys_per_a: usize = 1 << (nfacs - 1);
+        }
+        set("bounds");
+        let maxprime = fbase.bound() as u64;
+        let maxlarge: u64 = std::cmp::min(maxprime * lpf, (1 << 32) - 1);
+        let maxdouble = if dbl { maxprime * maxprime * dlf } else { 0 };
+        set("sieve_new");
+        let s = siqs::SieveSIQS::new(nint, &fbase, maxlarge, maxdouble, mm as usize, &prefs);
+        if got == 0 {
+            return (fb_len, got, 0u32, 0usize, "no_a");
+        }
+        set("prepare_a");
+        let a_int = a_ints[0];
+        let start_offset = if a_int.is_one() { 0 } else { -(mm as i64) / 2 };
+        let a = siqs::prepare_a(&factors, &a_int, &fbase, start_offset);
+        set("poly_first");
+        let pol = siqs::Poly::first(&s, &a);
+        set("sieve_poly");
+        let nrels = if cls.is_some() {
+            classgroup::vhook_flow::sieve_poly(&nint, s, &prefs, &a, &pol)
+        } else {
+            siqs::vhook_flow::sieve_poly(&s, &a, &pol)
+        };
+        (fb_len, got, a_int.bits(), nrels, "first_unit_done")
+    });
+    o.insert("at".into(), json!(*step.lock().unwrap()));
+    match r {
+        Ok((fb_len, got, abits, nrels, how)) => {
+            o.insert("ended".into(), json!(how));
+            o.insert("run_fb".into(), json!(fb_len.min(1 << 30)));
+            o.insert("tasks".into(), json!(got.min(1 << 30)));
+            o.insert("a_bits".into(), json!(abits));
+            o.insert("found".into(), json!(nrels.min(1 << 20)));
+        }
+        Err(e) => merge_err(o, &e),
+    }
+}
+
+/// a discriminant -m whose adjusted size (the size class `classgroup` takes its parameters from) is `target`
+fn make_disc(rng: &mut StdRng, target: u32) -> Option<(Uint, u32)> {
+    for _ in 0..4000 {
+        let bits = (target as i64 + rng.gen_range(-4i64..=6)).max(16) as u32;
+        let m8 = if rng.gen::<bool>() { 3 } else { 7 };
+        let (m, _) = make_n(rng, bits, m8);
+        let d = -Int::cast_from(m);
+        let bias = match guard(|| classgroup::vhook_flow::smoothness_bias(&d)) {
+            Ok(b) => b,
+            Err(_) => continue,
+        };
+        // the size class as classgroup() derives it
+        let adj = std::cmp::max(1, m.bits() as i64 - (2.5 * bias).round() as i64) as u32;
+        if adj == target {
+            return Some((m, adj));
+        }
+    }
+    None
+}
+
+fn real_cls_run(o: &mut Map<String, Value>, m: Uint, dbl: bool) {
+    o.insert("abort".into(), json!(1));
+    let r = guard_deadline(900.0, move || {
+        let prefs = abort_prefs(1, dbl);
+        let d = -Int::cast_from(m);
+        classgroup::classgroup(&d, &prefs, None).is_some()
+    });
+    match r {
+        Ok(some) => {
+            o.insert("ended".into(), json!(if some { "returned" } else { "aborted" }));
+        }
+        Err(e) => merge_err(o, &e),
+    }
+}
+
+fn flow_sieve(out: &mut Out, sh: &Value, seed: u64, profile: &str, pt: &PrimeTable, real_max: u32, idx: usize) {
+    let fam = sh["fam"].as_str().unwrap().to_string();
+    let bits = sh["bits"].as_u64().unwrap() as u32;
+    let dbl = sh["dbl"].as_bool().unwrap();
+    let side = sh["side"].as_str().unwrap_or("?").to_string();
+    let why = sh["why"].as_str().unwrap_or("?").to_string();
+    let nshape = sh["shape"].as_str().unwrap_or("hi").to_string();
+    let mut rng = rng_for(seed, &format!("c20-flow/{}/{}/{}/{}", fam, bits, dbl, nshape));
+    let alg: &'static str = match fam.as_str() {
+        "siqs" => "siqs",
+        "mpqs" => "mpqs",
+        "qs" => "qs",
+        "cls" => "cls",
+        _ => return,
+    };
+    // the number: exactly `bits` bits; 1 mod 8 (type 2 polynomials, factor base of bits-2) or 7 mod 8
+    let (n, psz) = if alg == "cls" {
+        match make_disc(&mut rng, bits) {
+            Some((m, adj)) => (m, adj),
+            None => return,
+        }
+    } else {
+        (make_n(&mut rng, bits, if nshape == "lo1" { 1 } else { 7 }).0, bits)
+    };
+    let kinds: Vec<&str> = match alg {
+        "siqs" => vec!["first", "real"],
+        "cls" => vec!["first", "real"],
+        _ => vec!["real"],
+    };
+    for kind in kinds {
+        // a whole A value = 2^(nfacs-1) polynomials: only where that finishes
+        if kind == "real" && (alg == "siqs" || alg == "cls") && bits > real_max {
+            continue;
+        }
+        let mut o = Map::new();
+        o.insert("op".into(), json!("flow"));
+        o.insert("case".into(), json!(format!("flow/{}/{}/{}/{}/{}/{}/{}", alg, bits, nshape, dbl as u8, kind, profile, idx)));
+        o.insert("alg".into(), json!(alg));
+        o.insert("fam".into(), json!(alg));
+        o.insert("bits".into(), json!(psz));
+        o.insert("nbits".into(), json!(n.bits()));
+        o.insert("side".into(), json!(side));
+        o.insert("why".into(), json!(why));
+        o.insert("shape".into(), json!(nshape));
+        o.insert("dbl".into(), json!(dbl));
+        o.insert("kind".into(), json!(kind));
+        o.insert("profile".into(), json!(profile));
+        o.insert("n".into(), dn(&n));
+        o.insert("nd".into(), json!(n.to_string()));
+        fill_params(&mut o, alg, &n, psz, dbl, pt);
+        if o.contains_key("outcome") {
+            o.insert("kind".into(), json!("params"));
+            out.ev(Value::Object(o));
+            return;
+        }
+        match (alg, kind) {
+            ("siqs", "first") => first_unit(&mut o, n, dbl, None),
+            ("cls", "first") => first_unit(&mut o, n, dbl, Some(psz)),
+            ("cls", "real") => real_cls_run(&mut o, n, dbl),
+            (_, "real") => {
+                let abort = if bits <= 100 { 0 } else { 1 };
+                real_sieve_run(&mut o, alg, n, dbl, abort)
+            }
+            _ => unreachable!(),
+        }
+        for k in ["stage_seen", "aborted"] {
+            if !o.contains_key(k) {
+                o.insert(k.into(), json!(false));
+            }
+        }
+        for k in ["run_fb", "tasks", "polys", "units_done", "found", "abort", "a_bits"] {
+            if !o.contains_key(k) {
+                o.insert(k.into(), json!(0));
+            }
+        }
+        for k in ["at", "ended"] {
+            if !o.contains_key(k) {
+                o.insert(k.into(), json!(""));
+            }
+        }
+        out.ev(Value::Object(o));
+    }
+}
+
+fn flow_stage2(out: &mut Out, sh: &Value, seed: u64, profile: &str, maxd2: u64, idx: usize) {
+    let table = sh["fam"].as_str().unwrap().to_string();
+    let b2s = sh["b2"].as_str().unwrap().to_string();
+    let b2: f64 = match b2s.parse() {
+        Ok(x) => x,
+        Err(_) => return,
+    };
+    let side = sh["side"].as_str().unwrap_or("?").to_string();
+    let mut rng = rng_for(seed, &format!("c20-flow2/{}/{}", table, b2s));
+    // the row the real selection function returns for this request (what the consumer will read)
+    let sel = guard(|| if table == "ecm" { params::stage2_params(b2) } else { pollard_pm1::vhook_params::stage2_params(b2) });
+    let (d1, d2) = match sel {
+        Ok((_, d1, d2)) => (d1, d2),
+        Err(_) => (0, 0),
+    };
+    let thr = pollard_pm1::vhook_params::multieval_threshold();
+    let methods: Vec<&'static str> = if table == "ecm" { vec!["ecm", "pp1", "ecm128"] } else { vec!["pm1"] };
+    for m in methods {
+        // work bounds (schedule only): the quadratic 128-bit variant and the largest rows
+        if d2 > maxd2 || (m == "ecm128" && d1.saturating_mul(d2) > 40_000_000) {
+            continue;
+        }
+        if m == "pm1" && !(b2 > thr) {
+            continue;
+        }
+        // a small modulus without small factors: two primes of 40 bits (stage 1 with B1 = 60 finds nothing in general)
+        let (p, q) = (rand_prime_u64(&mut rng, 40), rand_prime_u64(&mut rng, 40));
+        let n = Uint::from(p) * Uint::from(q);
+        let mut o = Map::new();
+        o.insert("op".into(), json!("flow2"));
+        o.insert("case".into(), json!(format!("flow2/{}/{}/{}/{}/{}", table, m, b2s, profile, idx)));
+        o.insert("fam".into(), json!(table));
+        o.insert("table".into(), json!(table));
+        o.insert("m".into(), json!(m));
+        o.insert("b2".into(), json!(b2s));
+        o.insert("side".into(), json!(side));
+        o.insert("profile".into(), json!(profile));
+        o.insert("nd".into(), json!(n.to_string()));
+        o.insert("d1".into(), du(d1));
+        o.insert("d2".into(), du(d2));
+        let seedc: u32 = rng.gen_range(2..1000);
+        yamaquasi::verif::start();
+        let r: Result<bool, Value> = guard_deadline(1800.0, move || match m {
+            "pm1" => pollard_pm1::pm1_impl(&n, 60, b2, Verbosity::Silent).is_some(),
+            "pp1" => pp1::pp1(n, seedc as u64 + 3, 60, b2, Verbosity::Silent).is_some(),
+            "ecm" | "ecm128" => {
+                let zn = ZmodN::new(n);
+                let s = match ecm::Suyama11::new(&zn) {
+                    Ok(s) => s,
+                    Err(_) => return false,
+                };
+                let g = match s.element(seedc).and_then(|p| s.params_point(&p)) {
+                    Ok(g) => g,
+                    Err(_) => return false,
+                };
+                let c = match ecm::Curve::twisted_from_point(zn.clone(), g) {
+                    Ok(c) => c,
+                    Err(_) => return false,
+                };
+                let sb = ecm::SmoothBase::new(60, m == "ecm");
+                if m == "ecm" {
+                    // the public entry point hands the table value of B2 to the single-curve routine
+                    let b2t = params::stage2_params(b2).0;
+                    ecm::vhook::ecm_curve(&sb, &zn, &c, b2t).is_some()
+                } else {
+                    let n128 = n.digits()[0] as u128 | (n.digits()[1] as u128) << 64;
+                    let gm = ecm::vhook::coords(c.gen());
+                    let lo = |m: &MInt| m.0[0] as u128 | (m.0[1] as u128) << 64;
+                    let c128 = ecm128::vhook::from_point(n128, &(lo(&gm.0), lo(&gm.1), lo(&gm.2)));
+                    ecm128::vhook::ecm_curve(&c128, &sb, b2).is_some()
+                }
+            }
+            _ => unreachable!(),
+        });
+        let evs = yamaquasi::verif::stop();
+        // what the consumer itself read and built
+        let (mut hd1, mut hd2, mut nb, mut ng, mut plen, mut nvals, mut cd2, mut hdr, mut conv) = (0u64, 0u64, 0u64, 0u64, 0u64, 0u64, 0u64, false, false);
+        for s in &evs {
+            let v: Value = match serde_json::from_str(s) {
+                Ok(v) => v,
+                Err(_) => continue,
+            };
+            match v["op"].as_str().unwrap_or("") {
+                "s2_hdr" if v.get("d1").is_some() => {
+                    hdr = true;
+                    hd1 = v["d1"].as_u64().unwrap_or(0);
+                    hd2 = v["d2"].as_u64().unwrap_or(0);
+                }
+                "s2_b" => nb += 1,
+                "s2_g" => ng = ng.max(v["k"].as_u64().unwrap_or(0)),
+                "s2_conv" => {
+                    conv = true;
+                    plen = v["plen"].as_u64().unwrap_or(0);
+                    nvals = v["nvals"].as_u64().unwrap_or(0);
+                    cd2 = v["d2"].as_u64().unwrap_or(0);
+                }
+                _ => {}
+            }
+        }
+        o.insert("hdr".into(), json!(hdr));
+        o.insert("hd1".into(), du(hd1));
+        o.insert("hd2".into(), du(hd2));
+        o.insert("nb".into(), json!(nb.min(1 << 30)));
+        o.insert("ng".into(), json!(ng.min(1 << 30)));
+        o.insert("conv".into(), json!(conv));
+        o.insert("plen".into(), json!(plen.min(1 << 30)));
+        o.insert("nvals".into(), json!(nvals.min(1 << 30)));
+        o.insert("cd2".into(), json!(cd2.min(1 << 30)));
+        match r {
+            Ok(found) => {
+                o.insert("ended".into(), json!("returned"));
+                o.insert("found".into(), json!(found));
+            }
+            Err(e) => merge_err(&mut o, &e),
+        }
+        out.ev(Value::Object(o));
+    }
+}
+
+fn flow_run(args: &Args) -> i32 {
+    let profile = arg_str(args, "profile", "release").to_string();
+    let seed = arg_u64(args, "seed", 1);
+    let shapes = read_ndjson(arg_str(args, "shapes", "shapes.ndjson"));
+    let (part, parts) = (arg_u64(args, "part", 0) as usize, arg_u64(args, "parts", 1).max(1) as usize);
+    let real_max = arg_u64(args, "real-max", 230) as u32;
+    let maxd2 = arg_u64(args, "maxd2", 16384);
+    let mut out = Out::create(arg_str(args, "out", "flow.ndjson"));
+    let need_pt = shapes.iter().any(|s| s["fam"] != "ecm" && s["fam"] != "pm1");
+    let pt = PrimeTable { ps: if need_pt { fbase::primes(MAX_ENUM as u32) } else { vec![] } };
+    // the code under test may take the whole process down (abort, stack exhaustion): the index of the shape in progress is
+    // kept in a side file, and the runner restarts after it (--from) and records the death as an event
+    let from = arg_u64(args, "from", 0) as usize;
+    let cur = format!("{}.cur", arg_str(args, "out", "flow.ndjson"));
+    for (i, sh) in shapes.iter().enumerate() {
+        if i % parts != part || i < from {
+            continue;
+        }
+        let _ = std::fs::write(&cur, format!("{}", i));
+        match sh["fam"].as_str().unwrap_or("") {
+            "ecm" | "pm1" => flow_stage2(&mut out, sh, seed, &profile, maxd2, i),
+            _ => flow_sieve(&mut out, sh, seed, &profile, &pt, real_max, i),
+        }
+        out.flush();
+    }
+    let _ = std::fs::write(&cur, "done");
     let n = out.finish();
     println!("{}", json!({"events": n}));
     0
